@@ -221,3 +221,326 @@ Proof.
     intros Hin. apply in_map_iff in Hin. destruct Hin as [y [Hpt Hy]].
     pose proof (find_none _ _ Hf y Hy) as Hn. cbn in Hn. rewrite Hpt, N.eqb_refl in Hn. discriminate.
 Qed.
+
+(* ---------- attribute owners ---------- *)
+
+Lemma codec_lines_owner : forall c kv,
+  In kv (codec_lines c) ->
+  (fst kv = "rtpmap" \/ fst kv = "fmtp" \/ fst kv = "rtcp-fb") /\
+  exists rest, snd kv = dec_of_N (c_pt c) ++ " " ++ rest.
+Proof.
+  intros c kv H. unfold codec_lines in H. apply in_app_or in H. destruct H as [H|H].
+  - destruct H as [<-|H].
+    + split; [now left|]. eexists. reflexivity.
+    + destruct (String.eqb (c_line c) ""); [destruct H|]. destruct H as [<-|[]].
+      split; [right; now left|]. eexists. reflexivity.
+  - apply in_map_iff in H. destruct H as [f [<- _]].
+    split; [right; now right|]. eexists. reflexivity.
+Qed.
+
+Lemma attr_owner_listed : forall s kv,
+  In kv (sec_attr_lines s) ->
+  exists c rest, In c (l_codecs s) /\ In (c_pt c) (sec_formats s) /\
+    (fst kv = "rtpmap" \/ fst kv = "fmtp" \/ fst kv = "rtcp-fb") /\
+    snd kv = dec_of_N (c_pt c) ++ " " ++ rest.
+Proof.
+  intros s kv H. unfold sec_attr_lines in H. apply in_flat_map in H.
+  destruct H as [c [Hc Hkv]]. destruct (codec_lines_owner c kv Hkv) as [Hk [rest Hr]].
+  exists c, rest. repeat split; try assumption.
+  unfold sec_formats. now apply in_map.
+Qed.
+
+(* ---------- local extension ids (nothing negotiated yet) ---------- *)
+
+From Coq Require Import Permutation.
+Open Scope list_scope.
+
+Lemma id_lookup_none_notin : forall id m, id_lookup id m = None -> ~ In id (map fst m).
+Proof.
+  induction m as [|[i h] t IH]; intros H Hin; [destruct Hin|].
+  cbn in H. destruct (Z.eqb i id) eqn:He; [discriminate|].
+  destruct Hin as [Hin|Hin]; [cbn in Hin; subst; rewrite Z.eqb_refl in He; discriminate|].
+  now apply IH.
+Qed.
+
+Lemma id_set_fresh_perm : forall id h m,
+  id_lookup id m = None -> Permutation (id_set id h m) ((id, h) :: m).
+Proof.
+  induction m as [|[i h'] t IH]; intros H; [apply Permutation_refl|].
+  cbn in H. destruct (Z.eqb i id) eqn:He; [discriminate|].
+  cbn [id_set]. rewrite He. destruct (Z.ltb id i).
+  - apply Permutation_refl.
+  - eapply Permutation_trans; [apply perm_skip, IH, H|]. apply perm_swap.
+Qed.
+
+Lemma first_free_spec : forall ids media neg id,
+  first_free ids media neg = Some id ->
+  In id ids /\ id_lookup id media = None /\ id_lookup id neg = None.
+Proof.
+  induction ids as [|i t IH]; intros media neg id H; [discriminate|].
+  cbn in H. destruct (id_lookup i media) eqn:H1.
+  - destruct (IH _ _ _ H) as [Hin Hl]. split; [now right|exact Hl].
+  - destruct (id_lookup i neg) eqn:H2.
+    + destruct (IH _ _ _ H) as [Hin Hl]. split; [now right|exact Hl].
+    + inversion H; subst. split; [now left|auto].
+Qed.
+
+Definition assign_step (neg : idmap) (media : idmap) (ext : hext) : idmap :=
+  match neg_id_of_uri (h_uri ext) neg with
+  | Some id => id_set id ext media
+  | None => match first_free one_byte_ids media neg with
+            | Some id => id_set id ext media
+            | None => media
+            end
+  end.
+
+Lemma assign_ids_fold : forall x, assign_ids x = fold_left (assign_step (neg_of x)) (x_ext x) [].
+Proof. reflexivity. Qed.
+
+Definition media_ok (media : idmap) (seen : list hext) : Prop :=
+  NoDup (map fst media) /\
+  (forall i h, In (i, h) media -> (1 <= i <= 14)%Z /\ In h seen).
+
+Lemma one_byte_range : forall i, In i one_byte_ids -> (1 <= i <= 14)%Z.
+Proof. intros i H. unfold one_byte_ids in H. repeat (destruct H as [<-|H]; [lia|]). destruct H. Qed.
+
+Lemma assign_fold_ok : forall exts media seen,
+  media_ok media seen ->
+  media_ok (fold_left (assign_step []) exts media) (seen ++ exts).
+Proof.
+  induction exts as [|e t IH]; intros media seen H.
+  - cbn. now rewrite app_nil_r.
+  - cbn [fold_left]. replace (seen ++ e :: t) with ((seen ++ [e]) ++ t) by (rewrite <- app_assoc; reflexivity).
+    apply IH. unfold assign_step. cbn [neg_id_of_uri find].
+    destruct H as [Hnd Hin].
+    destruct (first_free one_byte_ids media []) as [id|] eqn:Hf.
+    + destruct (first_free_spec _ _ _ _ Hf) as [Hid [Hnone _]].
+      pose proof (id_set_fresh_perm id e media Hnone) as Hperm. split.
+      * eapply Permutation_NoDup; [apply Permutation_sym, Permutation_map, Hperm|].
+        cbn [map fst]. constructor; [now apply id_lookup_none_notin|assumption].
+      * intros i h Hih. apply (Permutation_in _ Hperm) in Hih. destruct Hih as [Hih|Hih].
+        -- inversion Hih; subst. split; [now apply one_byte_range|]. apply in_or_app. right. now left.
+        -- destruct (Hin i h Hih) as [Hr Hs]. split; [assumption|]. apply in_or_app. now left.
+    + split; [assumption|]. intros i h Hih. destruct (Hin i h Hih) as [Hr Hs].
+      split; [assumption|]. apply in_or_app. now left.
+Qed.
+
+(* distinct URIs: every extension is entered at most once *)
+Lemma assign_fold_uris : forall exts media seen,
+  NoDup (map h_uri (seen ++ exts)) ->
+  media_ok media seen ->
+  NoDup (map (fun ih => h_uri (snd ih)) media) ->
+  NoDup (map (fun ih => h_uri (snd ih)) (fold_left (assign_step []) exts media)).
+Proof.
+  induction exts as [|e t IH]; intros media seen Hu Hok Hm; [exact Hm|].
+  cbn [fold_left].
+  assert (Hu' : NoDup (map h_uri ((seen ++ [e]) ++ t))) by (rewrite <- app_assoc; exact Hu).
+  assert (Hok' : media_ok (assign_step [] media e) (seen ++ [e])).
+  { pose proof (assign_fold_ok [e] media seen Hok) as H. exact H. }
+  apply (IH _ (seen ++ [e]) Hu' Hok').
+  unfold assign_step. cbn [neg_id_of_uri find].
+  destruct (first_free one_byte_ids media []) as [id|] eqn:Hf; [|exact Hm].
+  destruct (first_free_spec _ _ _ _ Hf) as [_ [Hnone _]].
+  pose proof (id_set_fresh_perm id e media Hnone) as Hperm.
+  eapply Permutation_NoDup; [apply Permutation_sym, Permutation_map, Hperm|].
+  cbn [map snd]. constructor; [|exact Hm].
+  (* e's URI is not among the seen ones *)
+  intros Hin. apply in_map_iff in Hin. destruct Hin as [[i h] [Hhu Hih]]. cbn [snd] in Hhu.
+  destruct Hok as [_ Hseen]. destruct (Hseen i h Hih) as [_ Hs].
+  rewrite map_app in Hu. cbn [map] in Hu.
+  apply NoDup_remove_2 in Hu. apply Hu. apply in_or_app. left.
+  rewrite <- Hhu. now apply in_map.
+Qed.
+
+(* selection keeps a sub-collection *)
+Lemma select_exts_in : forall m k dirs iu,
+  In iu (select_exts m k dirs) -> exists h, In (fst iu, h) m /\ snd iu = h_uri h.
+Proof.
+  intros m k dirs iu H. unfold select_exts in H. apply in_flat_map in H.
+  destruct H as [[i h] [Hm Hx]]. cbn [fst snd] in Hx.
+  destruct (dirs_intersect (h_dirs h) dirs && kind_flag h k); [|destruct Hx].
+  destruct Hx as [<-|[]]. exists h. cbn. auto.
+Qed.
+
+Lemma select_exts_nodup : forall m k dirs,
+  (NoDup (map fst m) -> NoDup (map fst (select_exts m k dirs))) /\
+  (NoDup (map (fun ih => h_uri (snd ih)) m) -> NoDup (map snd (select_exts m k dirs))).
+Proof.
+  induction m as [|[i h] t IH]; intros k dirs; [split; intros; constructor|].
+  destruct (IH k dirs) as [IH1 IH2]. unfold select_exts in *. cbn [flat_map fst snd].
+  split; intros H; cbn [map fst snd] in H; inversion H as [|x xs Hni Hnd]; subst;
+    (destruct (dirs_intersect (h_dirs h) dirs && kind_flag h k); cbn [app map fst snd];
+     [constructor; [|auto]|auto]).
+  - intros Hin. apply Hni. apply in_map_iff in Hin. destruct Hin as [iu [Hf Hin]].
+    destruct (select_exts_in t k dirs iu Hin) as [h' [Hm _]].
+    apply in_map_iff. exists (fst iu, h'). split; [exact Hf|exact Hm].
+  - intros Hin. apply Hni. apply in_map_iff in Hin. destruct Hin as [iu [Hf Hin]].
+    destruct (select_exts_in t k dirs iu Hin) as [h' [Hm Hu]].
+    apply in_map_iff. exists (fst iu, h'). split; [cbn; now rewrite <- Hu|exact Hm].
+Qed.
+
+Lemma local_ext_ids : forall x k dirs,
+  neg_of x = [] ->
+  let l := ext_params x false k dirs in
+  NoDup (map fst l) /\
+  (forall iu, In iu l -> (1 <= fst iu <= 14)%Z) /\
+  (NoDup (map h_uri (x_ext x)) -> NoDup (map snd l)).
+Proof.
+  intros x k dirs Hneg l. unfold l, ext_params.
+  assert (Hok0 : media_ok [] []) by (split; [constructor|intros i h []]).
+  pose proof (assign_fold_ok (x_ext x) [] [] Hok0) as Hok. cbn [app] in Hok.
+  rewrite assign_ids_fold, Hneg. destruct Hok as [Hnd Hin].
+  destruct (select_exts_nodup (fold_left (assign_step []) (x_ext x) []) k dirs) as [S1 S2].
+  split; [now apply S1|]. split.
+  - intros iu Hiu. destruct (select_exts_in _ _ _ _ Hiu) as [h [Hm _]]. exact (proj1 (Hin _ _ Hm)).
+  - intros Hu. apply S2. apply (assign_fold_uris (x_ext x) [] []); [exact Hu|exact Hok0|constructor].
+Qed.
+
+(* ---------- the full statement fails: witnesses (replayed in the harness corpus) ---------- *)
+
+Definition w_vp8 := mkCodec "video/VP8" 90000 0 "" [] 96.
+Definition w_vp9 := mkCodec "video/VP9" 90000 0 "profile-id=0" [] 98.
+Definition w_mid := "urn:ietf:params:rtp-hdrext:sdes:mid".
+
+(* answer to a remote offer: engine tables, header-extension registrations
+   (uri, kind), remote sections each with the local transceiver it is given *)
+Definition answer_of (video audio : list codec) (xregs : list (string * kind))
+           (remote : list (rsec_x * option trans)) : result (list lsection) :=
+  let e0 := new_engine video audio true in
+  let x0 := fold_left (fun x r => register_ext x (fst r) (snd r) []) xregs x_empty in
+  match update_remote_x e0 x0 (map fst remote) with
+  | (e1, x1, Ok _) => answer_sections e1 x1 remote
+  | (_, _, Err e) => Err e
+  | (_, _, Panic) => Panic
+  end.
+
+(* remote extmap id 20 is echoed *)
+Definition w_ext20 := answer_of [w_vp8] [] [(w_mid, KVideo)]
+                        [(mkRsec KVideo [w_vp8] [(20%Z, w_mid)], None)].
+Lemma w_ext20_fails : exists l, w_ext20 = Ok l /\ forallb section_ok l = false /\
+  existsb (fun s => existsb (fun iu => Z.ltb 14 (fst iu)) (l_exts s)) l = true.
+Proof. eexists. vm_compute. repeat split. Qed.
+
+(* the same URI at ids 20 and 3 after a remote remap *)
+Definition w_remap := answer_of [w_vp8] [] [(w_mid, KVideo)]
+                        [(mkRsec KVideo [w_vp8] [(20%Z, w_mid)], None);
+                         (mkRsec KVideo [w_vp8] [(3%Z, w_mid)], None)].
+Lemma w_remap_fails : exists l, w_remap = Ok l /\ forallb section_ok l = false /\
+  existsb (fun s => negb (nodup_str (map snd (l_exts s)))) l = true.
+Proof. eexists. vm_compute. repeat split. Qed.
+
+(* two preferences under one payload type *)
+Definition w_dup_pt := answer_of [w_vp8; w_vp9] [] []
+                        [(mkRsec KVideo [w_vp8; w_vp9] [],
+                          Some (mkTrans KVideo [w_vp8; set_pt w_vp9 96] false true))].
+Lemma w_dup_pt_fails : exists l, w_dup_pt = Ok l /\ forallb section_ok l = false /\
+  existsb (fun s => negb (nodup_N (sec_formats s))) l = true.
+Proof. eexists. vm_compute. repeat split. Qed.
+
+(* an RTX whose apt names an RTX without primary, in a first offer *)
+Definition w_chain :=
+  sections_of (new_engine (w_vp8 :: chain_witness) [] true) x_empty
+              [(mkTrans KVideo [] false true, None)].
+Lemma w_chain_fails : exists l, w_chain = Ok l /\ forallb section_ok l = false /\
+  existsb (fun s => negb (rtx_apts_listed (l_codecs s))) l = true.
+Proof. eexists. vm_compute. repeat split. Qed.
+
+(* and sections that satisfy everything exist, so section_ok is not vacuous *)
+Lemma w_good : exists l,
+  answer_of [w_vp8; mkCodec "video/rtx" 90000 0 "apt=96" [] 97] [] [(w_mid, KVideo)]
+            [(mkRsec KVideo [set_pt w_vp8 100; mkCodec "video/rtx" 90000 0 "apt=100" [] 101] [(3%Z, w_mid)], None)]
+  = Ok l /\ forallb section_ok l = true /\ map sec_formats l = [[100%N; 101%N]].
+Proof. eexists. vm_compute. repeat split. Qed.
+
+(* ---------- RegisterHeaderExtension keeps one entry per URI ---------- *)
+
+Lemma last_index_none : forall uri l i found,
+  last_index_of uri l i found = None ->
+  found = None /\ forall h, In h l -> h_uri h <> uri.
+Proof.
+  induction l as [|h t IH]; intros i found H; cbn in H.
+  - split; [assumption|intros h []].
+  - apply IH in H. destruct H as [Hf Hall].
+    destruct (String.eqb uri (h_uri h)) eqn:He; [discriminate|].
+    split; [assumption|]. intros h' [<-|Hin]; [|now apply Hall].
+    intros Heq. rewrite Heq, String.eqb_refl in He. discriminate.
+Qed.
+
+Lemma last_index_some : forall uri l i found j,
+  last_index_of uri l i found = Some j ->
+  found = Some j \/ (i <= j /\ exists h, nth_error l (j - i) = Some h /\ h_uri h = uri)%nat.
+Proof.
+  induction l as [|h t IH]; intros i found j H; cbn in H; [now left|].
+  apply IH in H. destruct H as [H|[Hle [h' [Hn Hu]]]].
+  - destruct (String.eqb uri (h_uri h)) eqn:He; [|now left].
+    inversion H; subst j. right. split; [lia|]. exists h. rewrite Nat.sub_diag. cbn.
+    split; [reflexivity|]. apply String.eqb_eq in He. now symmetry.
+  - right. split; [lia|]. exists h'. split; [|assumption].
+    replace (j - i)%nat with (S (j - S i)) by lia. exact Hn.
+Qed.
+
+Lemma update_nth_uris : forall (f : hext -> hext) l n h,
+  nth_error l n = Some h -> h_uri (f h) = h_uri h ->
+  map h_uri (update_nth n f l) = map h_uri l.
+Proof.
+  induction l as [|a t IH]; intros n h Hn Hf; [destruct n; discriminate|].
+  destruct n; cbn in *.
+  - inversion Hn; subst. now rewrite Hf.
+  - f_equal. now apply (IH n h).
+Qed.
+
+Lemma update_nth_last : forall (f : hext -> hext) l b,
+  update_nth (List.length l) f (l ++ [b]) = l ++ [f b].
+Proof. induction l as [|a t IH]; intros b; cbn; [reflexivity|]. now rewrite IH. Qed.
+
+Lemma register_ext_uris : forall x uri k dirs,
+  NoDup (map h_uri (x_ext x)) -> NoDup (map h_uri (x_ext (register_ext x uri k dirs))).
+Proof.
+  intros x uri k dirs H. unfold register_ext.
+  destruct (last_index_of uri (x_ext x) 0 None) as [i|] eqn:Hl; cbn [x_ext].
+  - destruct (last_index_some _ _ _ _ _ Hl) as [Hf|[_ [h [Hn Hu]]]]; [discriminate|].
+    rewrite Nat.sub_0_r in Hn.
+    erewrite update_nth_uris; [exact H|exact Hn|]. cbn. now symmetry.
+  - destruct (last_index_none _ _ _ _ Hl) as [_ Hall].
+    rewrite update_nth_last, map_app. cbn [map h_uri].
+    apply NoDup_snoc; [exact H|].
+    intros Hin. apply in_map_iff in Hin. destruct Hin as [h [Hu Hh]]. exact (Hall h Hh Hu).
+Qed.
+
+Lemma register_ext_neg : forall x uri k dirs,
+  neg_of x = [] -> neg_of (register_ext x uri k dirs) = [].
+Proof.
+  intros x uri k dirs H. unfold register_ext, neg_of in *.
+  destruct (last_index_of uri (x_ext x) 0 None); cbn [x_neg]; destruct (x_neg x); auto.
+Qed.
+
+(* any sequence of registrations on a fresh engine *)
+Definition registered (regs : list (string * kind * list tdir)) : xstate :=
+  fold_left (fun x r => register_ext x (fst (fst r)) (snd (fst r)) (snd r)) regs x_empty.
+
+Lemma registered_ok : forall regs,
+  NoDup (map h_uri (x_ext (registered regs))) /\ neg_of (registered regs) = [].
+Proof.
+  intros regs. unfold registered.
+  assert (G : forall x, NoDup (map h_uri (x_ext x)) /\ neg_of x = [] ->
+              NoDup (map h_uri (x_ext (fold_left (fun x r => register_ext x (fst (fst r)) (snd (fst r)) (snd r)) regs x))) /\
+              neg_of (fold_left (fun x r => register_ext x (fst (fst r)) (snd (fst r)) (snd r)) regs x) = []).
+  { induction regs as [|r t IH]; intros x Hx; [exact Hx|].
+    cbn [fold_left]. apply IH. destruct Hx as [H1 H2].
+    split; [now apply register_ext_uris|now apply register_ext_neg]. }
+  apply G. split; [constructor|reflexivity].
+Qed.
+
+Lemma local_ext_ids_registered : forall regs k dirs,
+  let l := ext_params (registered regs) false k dirs in
+  NoDup (map fst l) /\ (forall iu, In iu l -> (1 <= fst iu <= 14)%Z) /\ NoDup (map snd l).
+Proof.
+  intros regs k dirs l. destruct (registered_ok regs) as [Hu Hn].
+  destruct (local_ext_ids (registered regs) k dirs Hn) as [H1 [H2 H3]].
+  split; [exact H1|]. split; [exact H2|]. now apply H3.
+Qed.
+
+Lemma filter_rtx_sound : forall l x,
+  (In x (filter_unattached_rtx l) -> In x l) /\
+  (In x l -> is_rtx x = false -> In x (filter_unattached_rtx l)).
+Proof. intros l x. split; [apply filter_rtx_incl | apply filter_rtx_keeps_plain]. Qed.
